@@ -186,8 +186,12 @@ fn other_token_chars<T>(input: &[u8]) -> LexResult<'_, T> {
 }
 
 /// Make an error when the end of stream was encountered while trying to lex a certain token
-fn end_of_stream<T>() -> LexResult<'static, T> {
-    Err(LexErrorContext(&[], LexerErrorReason::EndOfStream))
+fn end_of_stream<T>(input: &[u8]) -> LexResult<'_, T> {
+    // The failure point is the end of the input we were given
+    Err(LexErrorContext(
+        &input[input.len()..],
+        LexerErrorReason::EndOfStream,
+    ))
 }
 
 /// Lex a token or return none
@@ -237,7 +241,7 @@ fn choose<'b, T: std::fmt::Debug>(lex_fns: &[DynLexFn<T>], input: &'b [u8]) -> L
 fn digit(input: &[u8]) -> LexResult<'_, u64> {
     // Handle end of stream
     if input.is_empty() {
-        return end_of_stream();
+        return end_of_stream(input);
     };
 
     // Match on the next character
@@ -292,7 +296,7 @@ fn test_digits() {
 fn digit_hex(input: &[u8]) -> LexResult<'_, u64> {
     // Handle end of stream
     if input.is_empty() {
-        return end_of_stream();
+        return end_of_stream(input);
     };
 
     // Match on the next character
@@ -359,7 +363,7 @@ fn test_digits_hex() {
 fn digit_octal(input: &[u8]) -> LexResult<'_, u64> {
     // Handle end of stream
     if input.is_empty() {
-        return end_of_stream();
+        return end_of_stream(input);
     };
 
     // Match on the next character
@@ -879,7 +883,7 @@ fn test_literal_float() {
 /// Parse the first character of an identifier
 fn identifier_firstchar(input: &[u8]) -> LexResult<'_, u8> {
     if input.is_empty() {
-        end_of_stream()
+        end_of_stream(input)
     } else {
         let byte = input[0];
         match byte as char {
@@ -892,7 +896,7 @@ fn identifier_firstchar(input: &[u8]) -> LexResult<'_, u8> {
 /// Parse characters in an identifier after the first
 fn identifier_char(input: &[u8]) -> LexResult<'_, u8> {
     if input.is_empty() {
-        end_of_stream()
+        end_of_stream(input)
     } else {
         let byte = input[0];
         match byte as char {
@@ -1060,7 +1064,7 @@ fn block_comment(input: &[u8]) -> LexResult<'_, Token> {
         }
 
         // Comment goes off the end of the file
-        end_of_stream()
+        end_of_stream(input)
     } else {
         // Not a block comment
         other_token_chars(input)
@@ -1401,7 +1405,7 @@ fn token_intermediate(input: &[u8], inside_include: bool) -> LexResult<'_, Token
         }
         None => {
             // No tokens
-            end_of_stream()
+            end_of_stream(input)
         }
     }
 }
